@@ -483,6 +483,7 @@ fn project(sim: &Sim, from: usize, m: &Macro, with_uni: bool) -> Vec<Obs> {
 #[derive(Clone, Debug, Default)]
 struct Reading {
     /// observed steps explained as regular macro steps
+    #[allow(dead_code)]
     head: usize,
     /// complete runs inside the head
     runs: usize,
@@ -1264,6 +1265,7 @@ impl Check for C08Check {
     fn assumptions(&self) -> Vec<String> {
         vec![
             "a macro never presses a key it already holds (nested identical modifiers are not generated: the OS stream cannot show the inner press)".into(),
+            "output chords (C-S-a) must release their modifiers in reverse order; for modifier groups C-S-(…) the guide does not say in which order the group's modifiers are released at the end (the tree releases them in press order), so any order is accepted there, one release per millisecond, after the group's content".into(),
             "only one macro per configuration carries a custom item and repeating bodies with one end in a delay of 5, because the guide documents that neighbouring custom items need delays; in cancelled runs the custom item is not judged".into(),
             "keys typed meanwhile and the cancelling key are outside every macro alphabet; the same macro is not re-activated while it is still running".into(),
             "cancel-on-press is exercised while the first run is in progress (the guide: 'the trigger is enabled while the macro is in progress'); the cancelling press is sent at least 1 ms after the macro key".into(),
